@@ -251,9 +251,10 @@ def func_atom(name, arg: RF) -> RF:
 # ---------------------------------------------------------------------------
 # Python expressions
 
-def from_py(expr, env, on_subscript=None):
+def from_py(expr, env, on_subscript=None, on_call=None):
     """Evaluate a Python arithmetic expression to an RF.  `env` maps names to
-    RFs; `on_subscript(node)` may resolve subscripts (mask indexing)."""
+    RFs; `on_subscript(node)` may resolve subscripts (mask indexing);
+    `on_call(node, ev)` may resolve calls the table below does not know."""
     def ev(n):
         fr = number_fraction(n)
         if fr is not None:
@@ -321,6 +322,10 @@ def from_py(expr, env, on_subscript=None):
                 return ev(n.args[0]) * RF.sym("pi") / RF.const(180)
             if short in ("abs", "absolute") and len(n.args) == 1:
                 raise Undecided("abs() in a model formula")
+            if on_call is not None:
+                r = on_call(n, ev)
+                if r is not None:
+                    return r
             raise Undecided(f"unknown function {d} in formula")
         if isinstance(n, ast.Subscript) and on_subscript is not None:
             r = on_subscript(n, ev)
